@@ -36,6 +36,33 @@ def _as_keywords(fn, a, kw):
     return a[:keep], dict(kw, **extra)
 
 
+_defcache = {}
+
+
+def _drop_defaults(fn, a):
+    """the same call without the trailing positional arguments that equal the parameter's documented default: the caller who does not
+    name an option gets the default, whatever it is (the monitors judge against the documented one)"""
+    import inspect
+
+    key = getattr(fn, "__func__", fn)
+    defs = _defcache.get(key)
+    if defs is None:
+        try:
+            ps = list(inspect.signature(fn).parameters.values())
+            defs = [p.default for p in ps] if all(p.kind == p.POSITIONAL_OR_KEYWORD for p in ps) else False
+        except (TypeError, ValueError):
+            defs = False
+        _defcache[key] = defs
+    if not defs or len(a) > len(defs):
+        return a
+    a = list(a)
+    import inspect as _i
+
+    while a and defs[len(a) - 1] is not _i.Parameter.empty and type(a[-1]) is type(defs[len(a) - 1]) and a[-1] == defs[len(a) - 1]:
+        a.pop()
+    return tuple(a)
+
+
 def fresh_strings(a):
     """the same arguments with every option-like string replaced by an equal string that is a different object (a mode name that
     came from a config file, JSON or argv is equal to the library's constant but not identical to it)"""
@@ -43,10 +70,13 @@ def fresh_strings(a):
 
 
 def call(fn, *a, **kw):
-    """Drive a real call; the monitors judge it, the driver does not care.  Every ninth call passes its trailing arguments by
+    """Drive a real call; the monitors judge it, the driver does not care.  Every seventh call leaves out trailing arguments that equal
+    the documented default.  Every ninth call passes its trailing arguments by
     keyword instead of by position; every eleventh passes whole-number float arguments as int, every thirteenth passes its
     short string arguments as equal-but-not-identical objects."""
     _calls[0] += 1
+    if _calls[0] % 7 == 0 and a and not kw:
+        a = _drop_defaults(fn, a)
     if _calls[0] % 9 == 0 and a:
         a, kw = _as_keywords(fn, a, kw)
     elif _calls[0] % 13 == 0 and a:
@@ -171,16 +201,22 @@ def rand_textgrid(rng, hi=5.0, ntiers=(1, 5), nmax=5, labels=None, variants=True
     late = 0.22 <= r < 0.30  # the textgrid starts before every one of its tiers does
     if late:
         tg = Textgrid(0.0, hi + 0.5)
+    # the time axis of the whole textgrid need not start at 0: an excerpt that keeps the recording's own times, or times before a
+    # reference event (negative)
+    s0 = rng.choice([0.5, 1.25, -2.0]) if (variants and 0.30 <= r < 0.42) else 0.0
     prev_points = []
     for i in range(rng.randrange(*ntiers)):
-        kind, ents, lo, top, t = rand_tier(rng, "t%d" % i, hi, nmax, 0.3, labels, src, full_span=True)
+        kind, ents, lo, top, t = rand_tier(rng, "t%d" % i, hi, nmax, 0.3, labels, src, full_span=True, ties=0.1)
+        if s0:
+            ents = [tuple(x + s0 for x in e[:-1]) + (e[-1],) for e in ents]
+            t = make_tier(kind, "t%d" % i, ents, s0, hi + s0)
         if kind == "P":
             if prev_points and rng.random() < 0.4:
                 # two point tiers of one textgrid mark the same instants (a tone tier and a break-index tier, say)
                 shared = rng.sample(prev_points, rng.randrange(1, len(prev_points) + 1))
                 own = [e for e in ents if all(abs(e[0] - x) > 1e-6 for x in shared)]
                 ents = sorted(own + [(x, rng.choice(labels or ["a", "b", "c"])) for x in shared])
-                t = make_tier(kind, "t%d" % i, ents, 0.0, hi)
+                t = make_tier(kind, "t%d" % i, ents, s0, hi + s0)
             prev_points = sorted({e[0] for e in ents} | set(prev_points))[:8]
         if late:
             ents = [tuple(x + 0.5 for x in e[:-1]) + (e[-1],) for e in ents]
